@@ -1,4 +1,1142 @@
-//! c12 check (under construction)
+//! C12 - views and models agree; a failed operation leaves its operand untouched.
+//!
+//! (a) agreement: every model the encoder accepts with <= 3 (thorough: 4) hops per segment, 1-3
+//!     segments, distinct field values, every (CurrINF, CurrHF) in range, and one-hop paths with
+//!     the second hop set / unset. The same logical path is held three ways: the crate's model, the
+//!     crate's view over bytes, and the reference codec `vpc::refwire` (written from the spec).
+//!     Oracle: bytes(view after op) == encode(model after the same op) == reference answer, Ok/Err
+//!     agree; reverse o reverse = identity; logical position preserved; ScionPath::try_reverse ==
+//!     a freshly built ScionPath over the reference-reversed bytes.
+//! (b) atomicity / totality: every byte string the view constructor accepts for seg lens in
+//!     {0..3}^3, all 4x64 pointer values, info flags from {0,1,2,3,0xFF}: an operation that returns
+//!     Err leaves the bytes unchanged; nothing panics. Panics are classified (`panic@`,
+//!     `overflow-panic@`, `debug-assert@`) - see util::panic_class.
+use rayon::prelude::*;
+use sciparse::{
+    core::{convert::ToModel, encode::WireEncode, view::View},
+    dataplane_path::{
+        model::DpPath,
+        onehop::{model::OneHopPath, view::OneHopPathView},
+        standard::{
+            model::{HopField, InfoField, Segment, StandardPath},
+            types::{HopFieldFlags, HopFieldMac, InfoFieldFlags},
+            view::StandardPathView,
+        },
+        types::PathType,
+        view::{ScionDpPathView, ScionDpPathViewExt, ScionDpPathViewExtMut},
+    },
+    identifier::isd_asn::IsdAsn,
+    path::{
+        ScionPath,
+        metadata::{PathMetadata, epic::EpicAuths, path_interface::PathInterface},
+    },
+};
+use vpc::{
+    Value, fnv64, hex, json, refmac,
+    refwire::{RHop, RInfo, RStdPath},
+    unhex,
+};
+
+use crate::util::{self, Acc};
+
+// ------------------------------------------------------------------------------------------
+// reference side
+// ------------------------------------------------------------------------------------------
+
+/// floor((ExpTime+1) * 337.5 s): relative expiry of a hop field
+fn ref_rel_exp(exp: u8) -> u64 {
+    (exp as u64 + 1) * 3375 / 10
+}
+fn sat_u32(x: u64) -> u32 {
+    x.min(u32::MAX as u64) as u32
+}
+fn ref_expiration_std(r: &RStdPath) -> u32 {
+    let n = r.num_inf();
+    if n == 0 {
+        return 0;
+    }
+    (0..n).map(|k| sat_u32(r.infos[k].timestamp as u64 + ref_rel_exp(r.hops[r.seg_range(k)].iter().map(|h| h.exp_time).min().unwrap()))).min().unwrap()
+}
+fn norm_ingress(i: &RInfo, h: &RHop) -> u16 {
+    if i.cons_dir() { h.cons_ingress } else { h.cons_egress }
+}
+fn norm_egress(i: &RInfo, h: &RHop) -> u16 {
+    if i.cons_dir() { h.cons_egress } else { h.cons_ingress }
+}
+
+fn m_info(i: &RInfo) -> InfoField {
+    InfoField { flags: InfoFieldFlags::from_bits_retain(i.flags), segment_id: i.seg_id, timestamp: i.timestamp }
+}
+fn m_hop(h: &RHop) -> HopField {
+    HopField { flags: HopFieldFlags::from_bits_retain(h.flags), expiration_units: h.exp_time, cons_ingress: h.cons_ingress, cons_egress: h.cons_egress, mac: HopFieldMac(h.mac) }
+}
+/// The crate model holding the same logical path as the reference value (built field by field,
+/// not through the crate's own view->model conversion).
+fn m_std(r: &RStdPath) -> StandardPath {
+    let mut p = StandardPath::new_empty();
+    p.current_info_field = r.curr_inf;
+    p.current_hop_field = r.curr_hf;
+    for k in 0..r.num_inf() {
+        p.segments.push(Segment { info_field: m_info(&r.infos[k]), hop_fields: r.hops[r.seg_range(k)].iter().map(m_hop).collect() });
+    }
+    p
+}
+fn onehop_bytes(i: &RInfo, h1: &RHop, h2: &RHop) -> Vec<u8> {
+    let mut v = i.to_bytes().to_vec();
+    v.extend_from_slice(&h1.to_bytes());
+    v.extend_from_slice(&h2.to_bytes());
+    v
+}
+/// Reversal of a completed one-hop path per scionproto (`onehop.Path.Reverse`): convert to the
+/// 2-hop standard path positioned at the second hop, then reverse that.
+fn ref_onehop_reversed(i: &RInfo, h1: &RHop, h2: &RHop) -> Option<RStdPath> {
+    if h2.cons_ingress == 0 {
+        return None;
+    }
+    Some(RStdPath { curr_inf: 0, curr_hf: 1, rsv: 0, seg_len: [2, 0, 0], infos: vec![i.clone()], hops: vec![h1.clone(), h2.clone()] }.reversed())
+}
+
+fn std_view(b: &[u8]) -> Option<&StandardPathView> {
+    match StandardPathView::try_from_slice(b) {
+        Ok((v, rest)) if rest.is_empty() => Some(v),
+        _ => None,
+    }
+}
+fn std_view_mut(b: &mut [u8]) -> &mut StandardPathView {
+    StandardPathView::try_from_mut_slice(b).expect("accepted before").0
+}
+fn boxed_std(b: &[u8]) -> Box<StandardPathView> {
+    StandardPathView::try_from_boxed(b.to_vec().into_boxed_slice()).expect("accepted before")
+}
+fn onehop_view(b: &[u8]) -> OneHopPathView {
+    OneHopPathView::try_from_slice(b).expect("32 bytes").0.clone()
+}
+
+const SRC: u64 = 0x0001_ff00_0000_0110;
+const DST: u64 = 0x0002_ff00_0000_0220;
+
+fn meta_for(n_if: usize, with_epic: bool) -> PathMetadata {
+    let ifs: Vec<PathInterface> = (0..n_if).map(|i| PathInterface::new(IsdAsn::from_u64(SRC + 0x10 * (i as u64 / 2 + i as u64 % 2)), 100 + i as u16)).collect();
+    let mut m = PathMetadata::new_minimal(1_800_000_000, 1400, ifs);
+    m.notes = Some((0..n_if / 2 + 1).map(|i| format!("note-{i}")).collect());
+    if with_epic {
+        m.epic_auth = Some(EpicAuths::new(vec![1, 2, 3], vec![4, 5, 6]));
+    }
+    m
+}
+/// what reversal of the metadata means, written independently: sequence of interfaces and notes in
+/// opposite order, EPIC authenticators dropped
+fn meta_reversed(m: &PathMetadata) -> PathMetadata {
+    let mut r = m.clone();
+    r.interfaces = m.interfaces.as_ref().map(|v| v.iter().rev().cloned().collect());
+    r.notes = m.notes.as_ref().map(|v| v.iter().rev().cloned().collect());
+    r.epic_auth = None;
+    r
+}
+
+// ------------------------------------------------------------------------------------------
+// bookkeeping
+// ------------------------------------------------------------------------------------------
+
+struct Cx<'a> {
+    acc: &'a mut Acc,
+    /// identifies the input for "distinct" counting and witness ordering
+    input: &'a [u8],
+    variant: u64,
+    part: &'static str,
+    extra: Value,
+}
+impl Cx<'_> {
+    /// count one evaluation; `nontrivial` by the rule stated in the evidence
+    fn ev(&mut self, op: &'static str, nontrivial: bool) {
+        self.acc.add("evaluations", 1);
+        if nontrivial {
+            let mut k = op.as_bytes().to_vec();
+            k.push(0);
+            k.extend_from_slice(&self.variant.to_be_bytes());
+            k.extend_from_slice(self.input);
+            self.acc.hashes.push(fnv64(&k));
+        }
+    }
+    fn viol(&mut self, class: &str, op: &'static str, what: impl FnOnce() -> String, detail: impl FnOnce() -> Value) {
+        let key = (self.input.len() as u64 * 256 + self.input.first().copied().unwrap_or(0) as u64, fnv64(self.input) ^ self.variant);
+        let (part, input, variant, extra) = (self.part, self.input, self.variant, &self.extra);
+        self.acc.viol(class, key, what, || json!({"part": part, "input": hex(input), "variant": variant, "op": op, "params": extra, "detail": detail()}));
+    }
+    fn panic(&mut self, op: &'static str, msg: &str) {
+        let class = util::panic_class();
+        self.acc.outcome(&format!("{}/{op}/{}", self.part, class.split('@').next().unwrap_or("panic")));
+        let m = msg.to_string();
+        self.viol(&class, op, || format!("{op} panicked: {m}"), || Value::Null);
+    }
+    fn out(&mut self, op: &str, res: &str) {
+        self.acc.outcome(&format!("{}/{op}/{res}", self.part));
+    }
+}
+
+// ------------------------------------------------------------------------------------------
+// (a) standard paths
+// ------------------------------------------------------------------------------------------
+
+fn queries(v: &StandardPathView) -> [Option<u16>; 5] {
+    let d = sciparse::dataplane_path::view::ScionDpPathViewRef::Standard(v);
+    [d.first_egress_interface(), d.last_ingress_interface(), d.current_ingress_interface(), d.current_egress_interface(), v.curr_egress_interface()]
+}
+fn ref_queries(r: &RStdPath) -> [Option<u16>; 5] {
+    let n = r.num_inf();
+    let cur = if (r.curr_inf as usize) < n && (r.curr_hf as usize) < r.hops.len() { Some((&r.infos[r.curr_inf as usize], &r.hops[r.curr_hf as usize])) } else { None };
+    [
+        r.hops.first().map(|h| norm_egress(&r.infos[0], h)),
+        r.hops.last().map(|h| norm_ingress(&r.infos[n - 1], h)),
+        cur.map(|(i, h)| norm_ingress(i, h)),
+        cur.map(|(i, h)| norm_egress(i, h)),
+        cur.map(|(i, h)| norm_egress(i, h)),
+    ]
+}
+
+fn check_a_std(r: &RStdPath, acc: &mut Acc) {
+    let enc_ref = r.to_bytes();
+    let m = m_std(r);
+    let mut cx = Cx { acc, input: &enc_ref, variant: 0, part: "a-std", extra: Value::Null };
+    let nt = true; // every model of (a) has >= 1 hop field and distinct field values
+
+    // conversion model -> bytes
+    match vpc::catch(|| m.try_encode_to_vec()) {
+        Ok(Ok(b)) => {
+            cx.ev("encode", nt);
+            if b != enc_ref {
+                cx.out("encode", "differs-from-reference");
+                cx.viol("std-encode-differs-from-reference", "encode", || "try_encode_to_vec of the model differs from the reference encoding of the same logical path".into(), || json!({"crate": hex(&b)}));
+                return;
+            }
+            cx.out("encode", "==reference");
+        }
+        Ok(Err(e)) => {
+            cx.viol("std-encoder-rejects-model", "encode", || format!("encoder rejects a model with pointers in range: {e}"), || Value::Null);
+            return;
+        }
+        Err(p) => {
+            cx.panic("encode", &p);
+            return;
+        }
+    }
+    let Some(v) = std_view(&enc_ref) else {
+        cx.viol("std-view-rejects-encoding", "view", || "view constructor rejects (or does not consume) the encoding of a model".into(), || Value::Null);
+        return;
+    };
+    // conversion bytes -> model, at both API levels
+    match vpc::catch(|| (v.to_model(), ScionDpPathView::Standard(v.to_boxed()).to_model(), DpPath::Standard(m.clone()).try_encode_to_owned_view().map(|o| o.as_slice().to_vec()))) {
+        Ok((m2, dp2, back)) => {
+            cx.ev("to_model", nt);
+            cx.ev("dp-to_model", nt);
+            cx.ev("dp-try_encode_to_owned_view", nt);
+            if m2 != m {
+                cx.viol("std-to-model-differs", "to_model", || "view.to_model() differs from the model the bytes were encoded from".into(), || json!({"got": format!("{m2:?}")}));
+            }
+            if dp2 != DpPath::Standard(m.clone()) {
+                cx.viol("dp-to-model-differs", "dp-to_model", || "ScionDpPathView::to_model() differs from DpPath::Standard(model)".into(), || Value::Null);
+            }
+            if back.as_deref() != Ok(&enc_ref[..]) {
+                cx.viol("dp-encode-owned-view-differs", "dp-try_encode_to_owned_view", || "DpPath::try_encode_to_owned_view differs from the reference bytes".into(), || Value::Null);
+            }
+            cx.out("conversions", "round-trip");
+        }
+        Err(p) => cx.panic("to_model", &p),
+    }
+    // counts and segments()
+    match vpc::catch(|| {
+        let segs: Vec<(InfoField, Vec<HopField>)> = v.segments().map(|(i, hs)| (i.to_model(), hs.iter().map(|h| h.to_model()).collect())).collect();
+        (v.info_field_count() as usize, v.hop_field_count() as usize, [v.seg0_len(), v.seg1_len(), v.seg2_len()], segs, m.info_field_count(), m.hop_field_count(), m.segment_sizes())
+    }) {
+        Ok((vi, vh, vl, segs, mi, mh, ml)) => {
+            cx.ev("counts", nt);
+            cx.ev("segments", nt);
+            let ok_counts = vi == mi && vi == r.num_inf() && vh == mh && vh == r.hops.len() && vl == ml && vl == r.seg_len;
+            if !ok_counts {
+                cx.viol("std-counts-disagree", "counts", || format!("info/hop/segment counts: view ({vi},{vh},{vl:?}) model ({mi},{mh},{ml:?}) reference ({},{},{:?})", r.num_inf(), r.hops.len(), r.seg_len), || Value::Null);
+            }
+            let ref_segs: Vec<(InfoField, Vec<HopField>)> = (0..r.num_inf()).map(|k| (m_info(&r.infos[k]), r.hops[r.seg_range(k)].iter().map(m_hop).collect())).collect();
+            let model_segs: Vec<(InfoField, Vec<HopField>)> = m.segments.iter().map(|s| (s.info_field, s.hop_fields.to_vec())).collect();
+            if segs != ref_segs || segs != model_segs {
+                cx.viol("std-segments-disagree", "segments", || "view.segments() differs from the model's segments / the reference segmentation".into(), || Value::Null);
+            }
+            cx.out("counts+segments", if ok_counts { "agree" } else { "disagree" });
+        }
+        Err(p) => cx.panic("counts", &p),
+    }
+    // expiration
+    match vpc::catch(|| (v.expiration(), m.expiration(), ScionDpPathView::Standard(v.to_boxed()).expiration())) {
+        Ok((ve, me, de)) => {
+            cx.ev("expiration", nt);
+            let re = ref_expiration_std(r);
+            if ve != me || ve != re || de != Some(ve) {
+                cx.viol("std-expiration-disagrees", "expiration", || format!("expiration: view {ve} model {me} dp-view {de:?} reference {re}"), || Value::Null);
+            }
+            cx.out("expiration", if re == u32::MAX { "agree(saturated)" } else { "agree" });
+        }
+        Err(p) => cx.panic("expiration", &p),
+    }
+    // interface queries
+    let q0 = match vpc::catch(|| queries(v)) {
+        Ok(q) => {
+            cx.ev("interfaces", nt);
+            let rq = ref_queries(r);
+            if q != rq {
+                cx.viol("std-interface-query-differs-from-reference", "interfaces", || format!("[first_egress,last_ingress,current_ingress,current_egress,curr_egress_interface] view {q:?} reference {rq:?}"), || Value::Null);
+            }
+            cx.out("interfaces", "==reference");
+            Some(q)
+        }
+        Err(p) => {
+            cx.panic("interfaces", &p);
+            None
+        }
+    };
+    // reversal x1, x2 on view, model, dp-view, dp-model
+    let rrev = r.reversed();
+    let rev_ref = rrev.to_bytes();
+    {
+        // sanity of the reference itself: position preserved
+        let (a, b) = (&rrev.hops[rrev.curr_hf as usize], &r.hops[r.curr_hf as usize]);
+        let (ia, ib) = (&rrev.infos[rrev.curr_inf as usize], &r.infos[r.curr_inf as usize]);
+        if a != b || ia.flags != ib.flags ^ 1 || ia.seg_id != ib.seg_id || ia.timestamp != ib.timestamp || rrev.reversed() != *r {
+            vpc::machinery_failure("refwire::reversed() does not preserve the logical position / is not an involution");
+        }
+    }
+    let res = vpc::catch(|| {
+        let mut b1 = enc_ref.clone();
+        let r1 = std_view_mut(&mut b1).try_reverse().is_ok();
+        let mut b2 = b1.clone();
+        let r2 = std_view_mut(&mut b2).try_reverse().is_ok();
+        let mut m1 = m.clone();
+        let mr1 = m1.try_reverse().is_ok();
+        let m1e = m1.try_encode_to_vec().ok();
+        let mut m2 = m1.clone();
+        let mr2 = m2.try_reverse().is_ok();
+        let mut dv = ScionDpPathView::Standard(boxed_std(&enc_ref));
+        let dr = dv.try_reverse().is_ok();
+        let mut dm = DpPath::Standard(m.clone());
+        let dmr = dm.try_reverse().is_ok();
+        let dme = dm.try_encode_to_owned_view().ok().map(|x| x.as_slice().to_vec());
+        (r1, b1, r2, b2, mr1, m1e, mr2, m2, dr, dv.as_slice().to_vec(), dmr, dme)
+    });
+    match res {
+        Ok((r1, b1, r2, b2, mr1, m1e, mr2, m2, dr, dvb, dmr, dme)) => {
+            cx.ev("try_reverse", nt);
+            cx.ev("try_reverse-x2", nt);
+            cx.ev("model-try_reverse", nt);
+            cx.ev("dp-try_reverse", nt);
+            if !(r1 && mr1 && dr && dmr) {
+                cx.viol("std-reverse-refused", "try_reverse", || format!("reversal of an in-range path refused: view {r1} model {mr1} dp-view {dr} dp-model {dmr}"), || Value::Null);
+            }
+            if b1 != rev_ref {
+                cx.out("try_reverse", "view!=reference");
+                cx.viol("std-view-reverse-differs-from-reference", "try_reverse", || "bytes after StandardPathView::try_reverse differ from the reference reversal".into(), || json!({"view": hex(&b1), "reference": hex(&rev_ref)}));
+            } else {
+                cx.out("try_reverse", "view==reference");
+            }
+            if m1e.as_deref() != Some(&rev_ref[..]) {
+                cx.out("try_reverse", "model!=reference");
+                cx.viol("std-model-reverse-differs-from-reference", "model-try_reverse", || "encode(StandardPath::try_reverse) differs from the reference reversal".into(), || json!({"model": m1e.as_ref().map(|x| hex(x)), "reference": hex(&rev_ref)}));
+            } else {
+                cx.out("try_reverse", "model==reference");
+            }
+            if m1e.as_deref() != Some(&b1[..]) {
+                cx.viol("std-view-and-model-reverse-disagree", "try_reverse", || "bytes(view after try_reverse) != encode(model after try_reverse)".into(), || json!({"view": hex(&b1), "model": m1e.as_ref().map(|x| hex(x))}));
+            }
+            if dvb != rev_ref || dme.as_deref() != Some(&rev_ref[..]) {
+                cx.viol("dp-reverse-differs-from-reference", "dp-try_reverse", || "ScionDpPathView / DpPath reversal differs from the reference reversal".into(), || Value::Null);
+            }
+            if !(r2 && mr2) || b2 != enc_ref || m2 != m {
+                cx.out("try_reverse-x2", "not-identity");
+                cx.viol("std-reverse-twice-not-identity", "try_reverse-x2", || "reverse o reverse is not the identity".into(), || json!({"after_two": hex(&b2)}));
+            } else {
+                cx.out("try_reverse-x2", "identity");
+            }
+            // logical position on the crate's own result, and the interface laws across reversal
+            if let (Ok(pa), Some(q0)) = (RStdPath::parse(&b1), q0) {
+                let same_pos = (pa.curr_hf as usize) < pa.hops.len() && (pa.curr_inf as usize) < pa.infos.len() && pa.hops[pa.curr_hf as usize] == r.hops[r.curr_hf as usize] && {
+                    let (x, y) = (&pa.infos[pa.curr_inf as usize], &r.infos[r.curr_inf as usize]);
+                    x.flags == y.flags ^ 1 && x.seg_id == y.seg_id && x.timestamp == y.timestamp
+                };
+                if !same_pos {
+                    cx.viol("std-view-reverse-moves-logical-position", "try_reverse", || "after try_reverse the pointers do not designate the same hop field / info field".into(), || json!({"after": hex(&b1)}));
+                }
+                if let Some(va) = std_view(&b1) {
+                    if let Ok(q1) = vpc::catch(|| queries(va)) {
+                        cx.ev("interfaces-after-reverse", nt);
+                        if !(q1[0] == q0[1] && q1[1] == q0[0] && q1[2] == q0[3] && q1[3] == q0[2]) {
+                            cx.viol("std-interfaces-not-mirrored-by-reverse", "interfaces-after-reverse", || format!("first/last/current ingress/egress before {q0:?} after {q1:?}"), || Value::Null);
+                        }
+                    }
+                }
+                cx.out("try_reverse", if same_pos { "position-preserved" } else { "position-moved" });
+            }
+        }
+        Err(p) => cx.panic("try_reverse", &p),
+    }
+    // ScionPath
+    let n_if = 2 * (r.hops.len() - r.num_inf());
+    for (variant, (src, dst, meta)) in [(SRC, DST, None), (SRC, DST, Some(meta_for(n_if.max(2), true))), (SRC, SRC, None)].into_iter().enumerate() {
+        cx.variant = 1 + variant as u64;
+        let (src, dst) = (IsdAsn::from_u64(src), IsdAsn::from_u64(dst));
+        let nh: std::net::SocketAddr = "10.0.0.1:30042".parse().unwrap();
+        let res = vpc::catch(|| {
+            let mut sp = ScionPath::new(src, dst, ScionDpPathView::Standard(boxed_std(&enc_ref)), meta.clone(), Some(nh));
+            let r1 = sp.try_reverse().is_ok();
+            let fresh = ScionPath::new(dst, src, ScionDpPathView::Standard(boxed_std(&rev_ref)), meta.as_ref().map(meta_reversed), None);
+            let mut sp2 = sp.clone();
+            let r2 = sp2.try_reverse().is_ok();
+            let fresh2 = ScionPath::new(src, dst, ScionDpPathView::Standard(boxed_std(&enc_ref)), meta.as_ref().map(|m| meta_reversed(&meta_reversed(m))), None);
+            (r1, sp, fresh, r2, sp2, fresh2)
+        });
+        match res {
+            Ok((r1, sp, fresh, r2, sp2, fresh2)) => {
+                cx.ev("scionpath-try_reverse", nt);
+                cx.ev("scionpath-try_reverse-x2", nt);
+                if !r1 || !r2 {
+                    cx.viol("scionpath-reverse-refused", "scionpath-try_reverse", || "ScionPath::try_reverse refused an in-range path".into(), || Value::Null);
+                }
+                for (a, b, op) in [(&sp, &fresh, "scionpath-try_reverse"), (&sp2, &fresh2, "scionpath-try_reverse-x2")] {
+                    if a == b {
+                        cx.out(op, "==freshly-built");
+                        continue;
+                    }
+                    cx.out(op, "!=freshly-built");
+                    let field = if a.src_ia() != b.src_ia() || a.dst_ia() != b.dst_ia() {
+                        "endpoints"
+                    } else if a.dp_path().as_slice() != b.dp_path().as_slice() {
+                        "dp-path"
+                    } else if a.metadata() != b.metadata() {
+                        "metadata"
+                    } else if a.fingerprint() != b.fingerprint() {
+                        "dp-fingerprint"
+                    } else if a.cp_fingerprint() != b.cp_fingerprint() {
+                        "cp-fingerprint"
+                    } else if a.next_hop() != b.next_hop() {
+                        "next-hop"
+                    } else {
+                        "expiration"
+                    };
+                    cx.viol(&format!("scionpath-reverse-{field}-differs-from-fresh"), op, || format!("after ScionPath::try_reverse the {field} differ(s) from a ScionPath freshly built over the reference-reversed bytes"), || json!({"got": format!("{a}"), "fresh": format!("{b}")}));
+                }
+            }
+            Err(p) => cx.panic("scionpath-try_reverse", &p),
+        }
+    }
+}
+
+// ------------------------------------------------------------------------------------------
+// (a) one-hop paths
+// ------------------------------------------------------------------------------------------
+
+fn check_a_onehop(i: &RInfo, h1: &RHop, h2: &RHop, acc: &mut Acc) {
+    let enc_ref = onehop_bytes(i, h1, h2);
+    let m = OneHopPath::new_from_parts(m_info(i), [m_hop(h1), m_hop(h2)]);
+    let mut cx = Cx { acc, input: &enc_ref, variant: 0, part: "a-onehop", extra: Value::Null };
+    let nt = true;
+    match vpc::catch(|| m.try_encode_to_vec()) {
+        Ok(Ok(b)) if b == enc_ref => {
+            cx.ev("encode", nt);
+            cx.out("encode", "==reference");
+        }
+        Ok(_) => {
+            cx.viol("onehop-encode-differs-from-reference", "encode", || "encoding of the one-hop model differs from the reference bytes".into(), || Value::Null);
+            return;
+        }
+        Err(p) => {
+            cx.panic("encode", &p);
+            return;
+        }
+    }
+    let v = onehop_view(&enc_ref);
+    match vpc::catch(|| (v.to_model(), ScionDpPathView::OneHop(v.clone()).to_model(), DpPath::OneHop(m.clone()).try_encode_to_owned_view().map(|o| o.as_slice().to_vec()))) {
+        Ok((m2, dp2, back)) => {
+            cx.ev("to_model", nt);
+            cx.ev("dp-to_model", nt);
+            cx.ev("dp-try_encode_to_owned_view", nt);
+            if m2 != m || dp2 != DpPath::OneHop(m.clone()) || back.as_deref() != Ok(&enc_ref[..]) {
+                cx.viol("onehop-conversion-round-trip-differs", "to_model", || "view<->model conversion of a one-hop path does not round-trip".into(), || Value::Null);
+            }
+            cx.out("conversions", "round-trip");
+        }
+        Err(p) => cx.panic("to_model", &p),
+    }
+    // expiration: only the view offers it; reference = saturating, as for the equivalent standard path
+    let re = sat_u32(i.timestamp as u64 + ref_rel_exp(h1.exp_time.min(h2.exp_time)));
+    match vpc::catch(|| v.expiration()) {
+        Ok(e) => {
+            cx.ev("expiration", nt);
+            if e != re {
+                cx.viol("onehop-expiration-differs-from-reference", "expiration", || format!("OneHopPathView::expiration() = {e}, reference (saturating, = StandardPathView on the equivalent 2-hop path) = {re}"), || Value::Null);
+            }
+            cx.out("expiration", "==reference");
+        }
+        Err(p) => {
+            cx.ev("expiration", nt);
+            cx.panic("expiration", &p)
+        }
+    }
+    // interface queries
+    match vpc::catch(|| {
+        let d = ScionDpPathView::OneHop(v.clone());
+        [d.first_egress_interface(), d.last_ingress_interface(), d.current_ingress_interface(), d.current_egress_interface()]
+    }) {
+        Ok(q) => {
+            cx.ev("interfaces", nt);
+            let rq = [Some(norm_egress(i, h1)), Some(norm_ingress(i, h2)), Some(norm_ingress(i, h2)), Some(norm_egress(i, h1))];
+            if q != rq {
+                cx.viol("onehop-interface-query-differs-from-reference", "interfaces", || format!("view {q:?} reference {rq:?}"), || Value::Null);
+            }
+            cx.out("interfaces", "==reference");
+        }
+        Err(p) => cx.panic("interfaces", &p),
+    }
+    // reversal
+    let res = vpc::catch(|| {
+        let mut v1 = v.clone();
+        let r1 = v1.try_reverse().is_ok();
+        let mut v2 = v1.clone();
+        let r2 = v2.try_reverse().is_ok();
+        let mut m1 = m.clone();
+        let mr1 = m1.try_reverse().is_ok();
+        let mut dv = ScionDpPathView::OneHop(v.clone());
+        let dr = dv.try_reverse().is_ok();
+        let mut dm = DpPath::OneHop(m.clone());
+        let dmr = dm.try_reverse().is_ok();
+        let mut dm2 = dm.clone();
+        let dmr2 = dm2.try_reverse().is_ok();
+        (r1, v1, r2, v2, mr1, m1, dr, dv, dmr, dm, dmr2, dm2)
+    });
+    match res {
+        Ok((r1, v1, r2, v2, mr1, m1, dr, dv, dmr, dm, dmr2, dm2)) => {
+            cx.ev("try_reverse", nt);
+            cx.ev("model-try_reverse", nt);
+            cx.ev("dp-try_reverse", nt);
+            let rref = ref_onehop_reversed(i, h1, h2);
+            if !(r1 == mr1 && r1 == dr && r1 == dmr && r1 == rref.is_some()) {
+                cx.viol("onehop-reverse-ok-err-disagree", "try_reverse", || format!("Ok/Err of reversal: view {r1} model {mr1} dp-view {dr} dp-model {dmr} reference {}", rref.is_some()), || Value::Null);
+            }
+            if r1 != (v1.as_slice() != &enc_ref[..]) && !r1 {
+                cx.viol("onehop-view-reverse-err-mutates", "try_reverse", || "OneHopPathView::try_reverse returned Err and changed the bytes".into(), || json!({"after": hex(v1.as_slice())}));
+            }
+            cx.out("try_reverse", if r1 { "Ok" } else { "Err(second hop unset)" });
+            if r1 {
+                if m1.try_encode_to_vec().ok().as_deref() != Some(v1.as_slice()) {
+                    cx.viol("onehop-view-and-model-reverse-disagree", "try_reverse", || "bytes(OneHopPathView after try_reverse) != encode(OneHopPath after try_reverse)".into(), || Value::Null);
+                }
+                // DpPath (model) vs ScionDpPathView (view)
+                let dv_model = dv.to_model();
+                if dv_model != dm {
+                    cx.out("dp-try_reverse", "view-keeps-onehop,model-becomes-standard");
+                    cx.viol(
+                        "onehop-reverse-view-stays-onehop-model-becomes-standard",
+                        "dp-try_reverse",
+                        || "ScionDpPathView::try_reverse keeps a (swapped) one-hop path, DpPath::try_reverse turns the same path into a 2-hop standard path: path type, length and bytes differ".into(),
+                        || json!({"view_after": hex(dv.as_slice()), "view_path_type": format!("{:?}", dv_model.path_type()), "model_after": dm.try_encode_to_vec().ok().map(|x| hex(&x)), "model_path_type": format!("{:?}", dm.path_type())}),
+                    );
+                } else {
+                    cx.out("dp-try_reverse", "view==model");
+                }
+                if let Some(rr) = &rref {
+                    let want = rr.to_bytes();
+                    let got = dm.try_encode_to_vec().ok();
+                    if dm.path_type() != PathType::Scion || got.as_deref() != Some(&want[..]) {
+                        cx.viol("onehop-model-reverse-differs-from-reference", "dp-try_reverse", || "DpPath::try_reverse of a one-hop path differs from the reference (scionproto: convert to standard path at hop 2, reverse)".into(), || json!({"got": got.map(|x| hex(&x)), "reference": hex(&want)}));
+                    } else {
+                        cx.out("dp-try_reverse", "model==reference(standard)");
+                    }
+                }
+                // involution
+                cx.ev("try_reverse-x2", nt);
+                if !r2 {
+                    cx.out("try_reverse-x2", "refused");
+                    cx.viol("onehop-view-reverse-twice-refused", "try_reverse-x2", || "a reversed one-hop path cannot be reversed back: the second try_reverse fails because hop 1 of a well-formed one-hop path has ConsIngress 0".into(), || json!({"after_one": hex(v1.as_slice())}));
+                } else if v2.as_slice() != &enc_ref[..] {
+                    cx.out("try_reverse-x2", "not-identity");
+                    cx.viol("onehop-view-reverse-twice-not-identity", "try_reverse-x2", || "reverse o reverse on OneHopPathView is not the identity".into(), || Value::Null);
+                } else {
+                    cx.out("try_reverse-x2", "identity");
+                }
+                cx.ev("dp-try_reverse-x2", nt);
+                if !dmr2 || dm2 != DpPath::OneHop(m.clone()) {
+                    cx.out("dp-try_reverse-x2", "model-does-not-return-to-onehop");
+                    cx.viol("onehop-dppath-reverse-twice-not-identity", "dp-try_reverse-x2", || "DpPath::try_reverse applied twice to a one-hop path yields a standard path, not the original one-hop path".into(), || json!({"after_two": dm2.try_encode_to_vec().ok().map(|x| hex(&x)), "path_type": format!("{:?}", dm2.path_type())}));
+                } else {
+                    cx.out("dp-try_reverse-x2", "identity");
+                }
+            }
+        }
+        Err(p) => cx.panic("try_reverse", &p),
+    }
+    // set_second_hop
+    let key = [0x5Au8; 16];
+    for (vi, (ingress, advanced)) in [(7u16, false), (7, true), (0xBEEF, false)].into_iter().enumerate() {
+        cx.variant = 10 + vi as u64;
+        cx.extra = json!({"ingress_interface": ingress, "key": hex(&key), "segment_id_was_advanced": advanced});
+        let res = vpc::catch(|| {
+            let mut v1 = v.clone();
+            v1.set_second_hop(ingress, key, advanced);
+            let mut m1 = m.clone();
+            m1.set_second_hop(ingress, key, advanced);
+            (v1.as_slice().to_vec(), m1.try_encode_to_vec().ok())
+        });
+        match res {
+            Ok((vb, mb)) => {
+                cx.ev("set_second_hop", nt);
+                // reference (scionproto router, one-hop ingress): SecondHop = {ConsIngress: in, ExpTime: FirstHop.ExpTime}, MAC over it with the advanced SegID
+                let beta = if advanced { i.seg_id } else { refmac::beta_step(i.seg_id, &h1.mac) };
+                let mut want = RHop { flags: 0, exp_time: h1.exp_time, cons_ingress: ingress, cons_egress: 0, mac: [0; 6] };
+                want.mac = refmac::hop_mac(&key, beta, i.timestamp, want.exp_time, ingress, 0);
+                let want_b = onehop_bytes(i, h1, &want);
+                let mb = mb.unwrap_or_default();
+                if vb == mb {
+                    cx.out("set_second_hop", "view==model");
+                } else {
+                    let (hv, hm) = (RHop::from_bytes(&vb[20..32]), RHop::from_bytes(&mb[20..32]));
+                    let mut diffs = vec![];
+                    if hv.exp_time != hm.exp_time {
+                        diffs.push("exptime");
+                    }
+                    if hv.flags != hm.flags {
+                        diffs.push("flags");
+                    }
+                    if hv.cons_ingress != hm.cons_ingress || hv.cons_egress != hm.cons_egress {
+                        diffs.push("interfaces");
+                    }
+                    if vb[..20] != mb[..20] {
+                        diffs.push("info-or-hop1");
+                    }
+                    if diffs.is_empty() {
+                        diffs.push("mac");
+                    }
+                    let d = diffs.join("+");
+                    cx.out("set_second_hop", &format!("view!=model({d})"));
+                    cx.viol(&format!("onehop-set-second-hop-view-and-model-disagree-on-{d}"), "set_second_hop", || format!("bytes(view after set_second_hop) != encode(model after set_second_hop): second hop differs in {d} (view copies hop 1's ExpTime and keeps hop 2's flags; model writes ExpTime 0 and clears the flags)"), || json!({"view": hex(&vb), "model": hex(&mb), "reference": hex(&want_b)}));
+                }
+                cx.out("set_second_hop", if vb == want_b { "view==reference" } else { "view!=reference" });
+                cx.out("set_second_hop", if mb == want_b { "model==reference" } else { "model!=reference" });
+            }
+            Err(p) => cx.panic("set_second_hop", &p),
+        }
+    }
+    cx.extra = Value::Null;
+    // ScionPath over a one-hop dp path (fingerprints recomputed == fresh over the view's own result)
+    cx.variant = 20;
+    let (src, dst) = (IsdAsn::from_u64(SRC), IsdAsn::from_u64(DST));
+    let res = vpc::catch(|| {
+        let mut sp = ScionPath::new(src, dst, ScionDpPathView::OneHop(v.clone()), Some(meta_for(2, false)), None);
+        let before = sp.clone();
+        let r1 = sp.try_reverse().is_ok();
+        let fresh = r1.then(|| ScionPath::new(dst, src, sp.dp_path().clone(), Some(meta_reversed(&meta_for(2, false))), None));
+        (r1, before, sp, fresh)
+    });
+    match res {
+        Ok((r1, before, sp, fresh)) => {
+            cx.ev("scionpath-try_reverse", nt);
+            if !r1 && sp != before {
+                cx.viol("scionpath-onehop-reverse-err-mutates", "scionpath-try_reverse", || "ScionPath::try_reverse returned Err and changed the path".into(), || Value::Null);
+            }
+            if let Some(f) = fresh {
+                if f != sp {
+                    cx.viol("scionpath-onehop-reverse-differs-from-fresh", "scionpath-try_reverse", || "ScionPath over a one-hop path: state after try_reverse differs from a freshly built path".into(), || json!({"got": format!("{sp}"), "fresh": format!("{f}")}));
+                }
+            }
+            cx.out("scionpath-try_reverse", if r1 { "Ok==freshly-built" } else { "Err,unchanged" });
+        }
+        Err(p) => cx.panic("scionpath-new/try_reverse", &p),
+    }
+}
+
+// ------------------------------------------------------------------------------------------
+// (b) atomicity + totality on raw byte strings
+// ------------------------------------------------------------------------------------------
+
+fn diff_class(before: &[u8], after: &[u8]) -> &'static str {
+    if before.len() == after.len() && before[0] == after[0] && before[4..] == after[4..] && before[1..4] != after[1..4] {
+        "leaves-seglens-swapped"
+    } else {
+        "mutates-path"
+    }
+}
+
+fn check_b_std(bytes: &[u8], acc: &mut Acc) {
+    let mut cx = Cx { acc, input: bytes, variant: 0, part: "b-std", extra: Value::Null };
+    let hops = ((bytes[1] & 3) << 4 | bytes[2] >> 4) as usize & 63;
+    let hops = hops + ((bytes[2] & 0xf) << 2 | bytes[3] >> 6) as usize + (bytes[3] & 63) as usize;
+    let has = hops > 0;
+    // 1 view
+    let mut b = bytes.to_vec();
+    match vpc::catch(|| std_view_mut(&mut b).try_reverse().map_err(|e| e.reason.to_string())) {
+        Ok(Ok(())) => {
+            cx.ev("try_reverse", has && b != bytes);
+            cx.out("try_reverse", "Ok");
+        }
+        Ok(Err(reason)) => {
+            cx.ev("try_reverse", true);
+            cx.out("try_reverse", &format!("Err({reason})"));
+            if b != bytes {
+                let d = diff_class(bytes, &b);
+                cx.out("try_reverse", &format!("Err-but-{d}"));
+                cx.viol(&format!("std-view-try-reverse-err-{d}"), "try_reverse", || format!("StandardPathView::try_reverse returned Err({reason}) but the path bytes changed (segment lengths are swapped before the pointers are validated)"), || json!({"after": hex(&b)}));
+            }
+        }
+        Err(p) => {
+            cx.ev("try_reverse", true);
+            cx.panic("try_reverse", &p)
+        }
+    }
+    // 2 dp view
+    let mut dv = ScionDpPathView::Standard(boxed_std(bytes));
+    match vpc::catch(|| dv.try_reverse().map(|_| ()).map_err(|e| e.reason.to_string())) {
+        Ok(Ok(())) => {
+            cx.ev("dp-try_reverse", has && dv.as_slice() != bytes);
+            cx.out("dp-try_reverse", "Ok");
+        }
+        Ok(Err(reason)) => {
+            cx.ev("dp-try_reverse", true);
+            cx.out("dp-try_reverse", "Err");
+            if dv.as_slice() != bytes {
+                let d = diff_class(bytes, dv.as_slice());
+                cx.viol(&format!("dpview-try-reverse-err-{d}"), "dp-try_reverse", || format!("ScionDpPathViewExtMut::try_reverse returned Err({reason}) but the path bytes changed"), || json!({"after": hex(dv.as_slice())}));
+            }
+        }
+        Err(p) => cx.panic("dp-try_reverse", &p),
+    }
+    // 3 ScionPath
+    let (src, dst) = (IsdAsn::from_u64(SRC), IsdAsn::from_u64(DST));
+    match vpc::catch(|| {
+        let mut sp = ScionPath::new(src, dst, ScionDpPathView::Standard(boxed_std(bytes)), Some(meta_for(4, true)), None);
+        let before = sp.clone();
+        let r = sp.try_reverse().map_err(|e| e.reason.to_string());
+        (r, before, sp)
+    }) {
+        Ok((Ok(()), _, sp)) => {
+            cx.ev("scionpath-try_reverse", has && sp.dp_path().as_slice() != bytes);
+            cx.out("scionpath-try_reverse", "Ok");
+        }
+        Ok((Err(reason), before, sp)) => {
+            cx.ev("scionpath-try_reverse", true);
+            cx.out("scionpath-try_reverse", "Err");
+            if sp != before {
+                let d = diff_class(bytes, sp.dp_path().as_slice());
+                cx.viol(&format!("scionpath-try-reverse-err-{d}"), "scionpath-try_reverse", || format!("ScionPath::try_reverse returned Err({reason}) but the path changed (inherited from StandardPathView::try_reverse)"), || json!({"dp_path_after": hex(sp.dp_path().as_slice()), "endpoints_swapped": sp.src_ia() != before.src_ia()}));
+            }
+        }
+        Err(p) => cx.panic("scionpath-new/try_reverse", &p),
+    }
+    // 4 model
+    let v = std_view(bytes).expect("accepted before");
+    match vpc::catch(|| {
+        let m = v.to_model();
+        let mut m1 = m.clone();
+        let r = m1.try_reverse().is_ok();
+        let unchanged = m1 == m;
+        let enc = m.try_encode_to_vec().is_ok();
+        let e = m.expiration();
+        (r, unchanged, enc, e)
+    }) {
+        Ok((r, unchanged, enc, _e)) => {
+            cx.ev("to_model", has);
+            cx.ev("model-try_reverse", true);
+            cx.ev("model-encode", true);
+            cx.ev("model-expiration", has);
+            if !r && !unchanged {
+                cx.viol("std-model-try-reverse-err-mutates", "model-try_reverse", || "StandardPath::try_reverse returned Err but changed the model".into(), || Value::Null);
+            }
+            cx.out("model-try_reverse", if r { "Ok" } else { "Err" });
+            cx.out("model-encode(to_model(bytes))", if enc { "Ok" } else { "Err" });
+        }
+        Err(p) => cx.panic("to_model/model-ops", &p),
+    }
+    // 5 queries
+    match vpc::catch(|| {
+        let n: usize = v.segments().map(|(_, h)| h.len()).sum();
+        (v.expiration(), queries(v), v.info_field_count(), v.hop_field_count(), n, ScionDpPathView::Standard(v.to_boxed()).expiration())
+    }) {
+        Ok((e, q, ..)) => {
+            cx.ev("expiration", e != 0);
+            cx.ev("interfaces", q.iter().any(|x| x.is_some()));
+            cx.ev("counts+segments", has);
+            cx.out("queries", if q[2].is_some() { "current-hop-resolved" } else { "current-hop-none" });
+        }
+        Err(p) => cx.panic("queries", &p),
+    }
+}
+
+fn check_b_onehop(bytes: &[u8], acc: &mut Acc) {
+    let mut cx = Cx { acc, input: bytes, variant: 0, part: "b-onehop", extra: Value::Null };
+    let v = onehop_view(bytes);
+    match vpc::catch(|| {
+        let mut v1 = v.clone();
+        let r = v1.try_reverse().is_ok();
+        (r, v1)
+    }) {
+        Ok((r, v1)) => {
+            cx.ev("try_reverse", true);
+            if !r && v1.as_slice() != bytes {
+                cx.viol("onehop-view-try-reverse-err-mutates", "try_reverse", || "OneHopPathView::try_reverse returned Err but changed the bytes".into(), || json!({"after": hex(v1.as_slice())}));
+            }
+            cx.out("try_reverse", if r { "Ok" } else { "Err" });
+        }
+        Err(p) => cx.panic("try_reverse", &p),
+    }
+    match vpc::catch(|| {
+        let m = v.to_model();
+        let mut m1 = m.clone();
+        let r1 = m1.try_reverse().is_ok();
+        let mut d = DpPath::OneHop(m.clone());
+        let r2 = d.try_reverse().is_ok();
+        let mut dv = ScionDpPathView::OneHop(v.clone());
+        let r3 = dv.try_reverse().is_ok();
+        (r1, r1 || m1 == m, r2, r2 || d == DpPath::OneHop(m.clone()), r3, r3 || dv.as_slice() == bytes)
+    }) {
+        Ok((r1, a1, r2, a2, r3, a3)) => {
+            cx.ev("model-try_reverse", true);
+            cx.ev("dp-model-try_reverse", true);
+            cx.ev("dp-try_reverse", true);
+            if !(a1 && a2 && a3) {
+                cx.viol("onehop-reverse-err-mutates", "model-try_reverse", || format!("a one-hop reversal returned Err and changed its operand: model {a1} dp-model {a2} dp-view {a3}"), || Value::Null);
+            }
+            cx.out("model/dp try_reverse", if r1 && r2 && r3 { "Ok" } else if !r1 && !r2 && !r3 { "Err" } else { "mixed" });
+        }
+        Err(p) => cx.panic("model-try_reverse", &p),
+    }
+    match vpc::catch(|| v.expiration()) {
+        Ok(_) => {
+            cx.ev("expiration", true);
+            cx.out("expiration", "returns");
+        }
+        Err(p) => {
+            cx.ev("expiration", true);
+            cx.panic("expiration", &p)
+        }
+    }
+    match vpc::catch(|| {
+        let mut v1 = v.clone();
+        v1.set_second_hop(9, [7u8; 16], false);
+        let mut m = v.to_model();
+        m.set_second_hop(9, [7u8; 16], false);
+        let d = ScionDpPathView::OneHop(v.clone());
+        (d.first_egress_interface(), d.last_ingress_interface(), d.current_ingress_interface(), d.current_egress_interface())
+    }) {
+        Ok(_) => {
+            cx.ev("set_second_hop", true);
+            cx.ev("interfaces", true);
+        }
+        Err(p) => cx.panic("set_second_hop/interfaces", &p),
+    }
+    let (src, dst) = (IsdAsn::from_u64(SRC), IsdAsn::from_u64(DST));
+    match vpc::catch(|| {
+        let mut sp = ScionPath::new(src, dst, ScionDpPathView::OneHop(v.clone()), None, None);
+        let before = sp.clone();
+        let r = sp.try_reverse().is_ok();
+        (r, r || sp == before)
+    }) {
+        Ok((r, atomic)) => {
+            cx.ev("scionpath-try_reverse", true);
+            if !atomic {
+                cx.viol("scionpath-onehop-reverse-err-mutates", "scionpath-try_reverse", || "ScionPath::try_reverse over a one-hop path returned Err and changed the path".into(), || Value::Null);
+            }
+            cx.out("scionpath-try_reverse", if r { "Ok" } else { "Err" });
+        }
+        Err(p) => {
+            cx.ev("scionpath-new", true);
+            cx.panic("scionpath-new/try_reverse", &p)
+        }
+    }
+}
+
+// ------------------------------------------------------------------------------------------
+// enumeration
+// ------------------------------------------------------------------------------------------
+
+/// Well-formed reference path with distinct field values. `scheme` varies where the smallest
+/// ExpTime sits and whether timestamp + expiry saturates.
+fn a_std_case(lens: &[u8], cons_mask: u8, extra_flags: u8, scheme: u8, ci: u8, ch: u8) -> RStdPath {
+    let mut seg_len = [0u8; 3];
+    let total: usize = lens.iter().map(|x| *x as usize).sum();
+    let mut infos = vec![];
+    let mut hops = vec![];
+    let mut j = 0usize;
+    for (k, l) in lens.iter().enumerate() {
+        seg_len[k] = *l;
+        let ts = match scheme {
+            0 => 1_700_000_000 + 1000 * k as u32,
+            1 => 1_700_000_000 - 1000 * k as u32,
+            2 => u32::MAX - 50 - k as u32,
+            _ => k as u32,
+        };
+        infos.push(RInfo { flags: (cons_mask >> k & 1) | (extra_flags & 0xFE), rsv: 0, seg_id: 0x1111 * (k as u16 + 1) + 0x0a0b, timestamp: ts });
+        for _ in 0..*l {
+            let exp = match scheme {
+                0 => 10 + j as u8,
+                1 => 200 - 7 * j as u8,
+                2 => 255 - j as u8,
+                _ => 0,
+            };
+            hops.push(RHop { flags: (j as u8).wrapping_mul(37).wrapping_add(1), exp_time: exp, cons_ingress: 0x0100 * (j as u16 + 1) + 1, cons_egress: 0x0100 * (j as u16 + 1) + 2, mac: [0xA0 + j as u8, 1 + j as u8, 2, 3, 4, 0x50 + (total - j) as u8] });
+            j += 1;
+        }
+    }
+    RStdPath { curr_inf: ci, curr_hf: ch, rsv: 0, seg_len, infos, hops }
+}
+
+fn a_onehop_cases(thorough: bool) -> Vec<(RInfo, RHop, RHop)> {
+    let mut v = vec![];
+    let tss: &[u32] = if thorough { &[0, 1_700_000_000, u32::MAX - 86_400, u32::MAX - 86_399, u32::MAX - 338, u32::MAX] } else { &[1_700_000_000, u32::MAX - 338, u32::MAX] };
+    for iflags in [1u8, 0, 3, 0xFD] {
+        for ts in tss {
+            for h1_in in [0u16, 5] {
+                for exp1 in [0u8, 63, 255] {
+                    for second in 0..4 {
+                        let i = RInfo { flags: iflags, rsv: 0, seg_id: 0xA5C3, timestamp: *ts };
+                        let h1 = RHop { flags: 0, exp_time: exp1, cons_ingress: h1_in, cons_egress: 0x0102, mac: [0x11, 0x22, 0x33, 0x44, 0x55, 0x66] };
+                        let h2 = match second {
+                            0 => RHop { flags: 0, exp_time: 0, cons_ingress: 0, cons_egress: 0, mac: [0; 6] }, // unset
+                            1 => RHop { flags: 0, exp_time: exp1, cons_ingress: 0x0201, cons_egress: 0, mac: [0x61, 0x62, 0x63, 0x64, 0x65, 0x66] },
+                            2 => RHop { flags: 3, exp_time: 7, cons_ingress: 0x0201, cons_egress: 0x0909, mac: [0x71, 0x72, 0x73, 0x74, 0x75, 0x76] },
+                            _ => RHop { flags: 0x80, exp_time: 255, cons_ingress: 0, cons_egress: 0x0909, mac: [0x81, 0x82, 0x83, 0x84, 0x85, 0x86] }, // "unset" by ConsIngress, other fields stale
+                        };
+                        v.push((i, h1, h2));
+                    }
+                }
+            }
+        }
+    }
+    v
+}
+
+const FLAGSET: [u8; 5] = [0, 1, 2, 3, 0xFF];
+
+/// Bytes the view constructor must accept for the seg-len triple: meta + one info field per
+/// non-zero length + the hop fields, distinct contents.
+fn b_std_bytes(lens: [u8; 3], info_flags: &[u8], rsv: u8) -> Vec<u8> {
+    let n = lens.iter().filter(|l| **l > 0).count();
+    let total: usize = lens.iter().map(|x| *x as usize).sum();
+    let infos = (0..n).map(|k| RInfo { flags: info_flags[k], rsv: 0x40 + k as u8, seg_id: 0x2222 * (k as u16 + 1), timestamp: 1_600_000_000 + 77 * k as u32 }).collect();
+    let hops = (0..total).map(|j| RHop { flags: FLAGSET[j % 5], exp_time: 3 + 5 * j as u8, cons_ingress: 0x0300 + 2 * j as u16 + 1, cons_egress: 0x0300 + 2 * j as u16 + 2, mac: [j as u8, 0xB1, 0xB2, 0xB3, 0xB4, 0xB5] }).collect();
+    RStdPath { curr_inf: 0, curr_hf: 0, rsv, seg_len: lens, infos, hops }.to_bytes()
+}
+
+fn replay(file: &std::path::Path) -> ! {
+    let v = vpc::read_replay(file);
+    let w = &v["witness"];
+    println!("replay of class {} : {}", v["class"], v["what"]);
+    let input = unhex(w["input"].as_str().unwrap_or(""));
+    println!("  part {} op {} input {}", w["part"], w["op"], hex(&input));
+    let mut acc = Acc::default();
+    match w["part"].as_str() {
+        Some("a-std") => match RStdPath::parse(&input) {
+            Ok(r) => check_a_std(&r, &mut acc),
+            Err(e) => vpc::machinery_failure(&format!("replay input is not a well-formed standard path: {e}")),
+        },
+        Some("a-onehop") if input.len() == 32 => check_a_onehop(&RInfo::from_bytes(&input[0..8]), &RHop::from_bytes(&input[8..20]), &RHop::from_bytes(&input[20..32]), &mut acc),
+        Some("b-std") => check_b_std(&input, &mut acc),
+        Some("b-onehop") if input.len() == 32 => check_b_onehop(&input, &mut acc),
+        p => vpc::machinery_failure(&format!("unknown part {p:?} in replay")),
+    }
+    for (k, n) in &acc.outcomes {
+        println!("  outcome {k} x{n}");
+    }
+    if acc.viols.is_empty() {
+        println!("  no violation on this input");
+    }
+    for (c, e) in &acc.viols {
+        println!("  VIOLATION [{c}] {}\n    {}", e.what, e.witness);
+    }
+    std::process::exit(0)
+}
+
 pub fn run(args: &vpc::Args) -> ! {
-    vpc::machinery_failure(&format!("property {} not implemented yet", args.prop))
+    util::install_panic_hook();
+    if let Some(f) = &args.replay {
+        replay(f);
+    }
+    let run = vpc::Run::new(args);
+    let thorough = run.tier == vpc::Tier::Thorough;
+
+    // ---- (a) standard
+    let maxlen: u8 = if thorough { 4 } else { 3 };
+    let mut shapes: Vec<Vec<u8>> = vec![];
+    for a in 1..=maxlen {
+        shapes.push(vec![a]);
+        for b in 1..=maxlen {
+            shapes.push(vec![a, b]);
+            for c in 1..=maxlen {
+                shapes.push(vec![a, b, c]);
+            }
+        }
+    }
+    let extras: &[u8] = if thorough { &[0x00, 0x02, 0xFC, 0xFE] } else { &[0x00, 0xFE] };
+    let schemes: &[u8] = if thorough { &[0, 1, 2, 3] } else { &[0, 1, 2] };
+    let mut a_tasks: Vec<(Vec<u8>, u8, u8, u8)> = vec![];
+    for s in &shapes {
+        for cons in 0..(1u8 << s.len()) {
+            for e in extras {
+                for sc in schemes {
+                    a_tasks.push((s.clone(), cons, *e, *sc));
+                }
+            }
+        }
+    }
+    let mut acc = a_tasks
+        .par_iter()
+        .map(|(s, cons, e, sc)| {
+            let mut acc = Acc::default();
+            let total: u8 = s.iter().sum();
+            for ci in 0..s.len() as u8 {
+                for ch in 0..total {
+                    let r = a_std_case(s, *cons, *e, *sc, ci, ch);
+                    check_a_std(&r, &mut acc);
+                    acc.add("a_std_models", 1);
+                    acc.sample("a-std", fnv64(&r.to_bytes()), 2, || json!({"part": "a-std", "bytes": hex(&r.to_bytes()), "model": format!("{:?}", m_std(&r))}));
+                }
+            }
+            acc
+        })
+        .reduce(Acc::default, |mut a, b| {
+            a.merge(b);
+            a
+        });
+    // ---- (a) one-hop
+    let oh = a_onehop_cases(thorough);
+    let acc_oh = oh
+        .par_iter()
+        .map(|(i, h1, h2)| {
+            let mut acc = Acc::default();
+            check_a_onehop(i, h1, h2, &mut acc);
+            acc.add("a_onehop_models", 1);
+            acc.sample("a-onehop", fnv64(&onehop_bytes(i, h1, h2)), 2, || json!({"part": "a-onehop", "bytes": hex(&onehop_bytes(i, h1, h2))}));
+            acc
+        })
+        .reduce(Acc::default, |mut a, b| {
+            a.merge(b);
+            a
+        });
+    acc.merge(acc_oh);
+    let t_a = run.elapsed_s();
+
+    // ---- (b) standard: every accepted byte string of the stated family
+    let mut b_tasks: Vec<([u8; 3], Vec<u8>, u8)> = vec![];
+    for a in 0..=3u8 {
+        for b in 0..=3u8 {
+            for c in 0..=3u8 {
+                let n = [a, b, c].iter().filter(|l| **l > 0).count();
+                let rsvs: &[u8] = if thorough { &[0, 0x3F] } else { &[0] };
+                let combos: Vec<Vec<u8>> = if thorough {
+                    let mut v = vec![vec![]];
+                    for _ in 0..n {
+                        v = v.into_iter().flat_map(|p: Vec<u8>| FLAGSET.iter().map(move |f| p.iter().copied().chain(std::iter::once(*f)).collect::<Vec<u8>>())).collect();
+                    }
+                    v
+                } else {
+                    // uniform flags, plus mixed assignments rotating through the set
+                    let mut v: Vec<Vec<u8>> = FLAGSET.iter().map(|f| vec![*f; n]).collect();
+                    if n > 1 {
+                        for s in 0..5 {
+                            v.push((0..n).map(|k| FLAGSET[(s + k) % 5]).collect());
+                        }
+                    }
+                    v
+                };
+                for f in combos {
+                    for r in rsvs {
+                        b_tasks.push(([a, b, c], f.clone(), *r));
+                    }
+                }
+            }
+        }
+    }
+    let acc_b = b_tasks
+        .par_iter()
+        .map(|(lens, flags, rsv)| {
+            let mut acc = Acc::default();
+            let base = b_std_bytes(*lens, flags, *rsv);
+            match StandardPathView::try_from_slice(&base) {
+                Ok((v, rest)) if rest.is_empty() && v.as_slice().len() == base.len() => {}
+                _ => {
+                    acc.outcome("b-std/constructor/rejected-or-partial");
+                    acc.viol("std-view-constructor-size-differs-from-reference", (0, 0), || "the view constructor does not accept exactly meta + one info field per non-zero seg len + hop fields".into(), || json!({"input": hex(&base)}));
+                    return acc;
+                }
+            }
+            for ptr in 0..=255u8 {
+                let mut b = base.clone();
+                b[0] = ptr;
+                check_b_std(&b, &mut acc);
+                acc.add("b_std_byte_strings", 1);
+                acc.sample("b-std", fnv64(&b), 2, || json!({"part": "b-std", "bytes": hex(&b)}));
+            }
+            acc
+        })
+        .reduce(Acc::default, |mut a, b| {
+            a.merge(b);
+            a
+        });
+    acc.merge(acc_b);
+    // ---- (b) one-hop
+    let mut ohb: Vec<Vec<u8>> = vec![];
+    for iflags in FLAGSET {
+        for h1_in in [0u16, 5] {
+            for h2_in in [0u16, 9, 0xFFFF] {
+                for (e1, e2) in [(0u8, 0u8), (0, 255), (255, 0), (255, 255), (1, 1), (63, 200)] {
+                    for ts in [0u32, 1000, u32::MAX - 86_400, u32::MAX - 86_399, u32::MAX - 337, u32::MAX] {
+                        for hf in [0u8, 0xFF] {
+                            let i = RInfo { flags: iflags, rsv: 0x7e, seg_id: 0x0f0f, timestamp: ts };
+                            let h1 = RHop { flags: hf, exp_time: e1, cons_ingress: h1_in, cons_egress: 3, mac: [1, 2, 3, 4, 5, 6] };
+                            let h2 = RHop { flags: hf, exp_time: e2, cons_ingress: h2_in, cons_egress: 0, mac: [9, 8, 7, 6, 5, 4] };
+                            ohb.push(onehop_bytes(&i, &h1, &h2));
+                        }
+                    }
+                }
+            }
+        }
+    }
+    let acc_ob = ohb
+        .par_iter()
+        .map(|b| {
+            let mut acc = Acc::default();
+            check_b_onehop(b, &mut acc);
+            acc.add("b_onehop_byte_strings", 1);
+            acc
+        })
+        .reduce(Acc::default, |mut a, b| {
+            a.merge(b);
+            a
+        });
+    acc.merge(acc_ob);
+
+    let evaluations = acc.get("evaluations");
+    let distinct = acc.distinct();
+    let counters = json!(acc.counters);
+    acc.flush(&run);
+    run.finish(
+        "exploration",
+        json!({
+            "evaluations": evaluations,
+            "distinct_nontrivial": distinct,
+            "rule": "one evaluation = one operation (try_reverse x1/x2, expiration, counts/segments, interface queries, set_second_hop, to_model / encode conversions, each at view, model, ScionDpPathView/DpPath and ScionPath level) on one enumerated input. Counted as distinct AND non-trivial (measured: FNV-64 of (operation, variant, input bytes), de-duplicated): in (a) every evaluation (all models have >= 1 hop field and pairwise distinct field values, results are compared between view, model and reference); in (b) an evaluation whose operation returned Err or panicked, changed the bytes of a path with >= 1 hop field, or returned a non-empty answer - evaluations on hop-less paths that return Ok/None/0 are trivial",
+            "exhaustive": true,
+            "bound": format!(
+                "(a) every StandardPath model with 1-3 segments x 1-{maxlen} hops, every cons-dir assignment, extra info flags {extras:?}, value schemes {schemes:?} (position of the minimum ExpTime, saturating timestamps), EVERY (CurrINF, CurrHF) the encoder accepts = {} models; {} one-hop models (second hop unset / set / set with flags / stale, timestamps up to u32::MAX); ScionPath with and without metadata, src==dst and src!=dst. (b) every byte string of the family seg lens {{0..3}}^3 x all 256 pointer bytes x info flags from {{0,1,2,3,0xFF}} ({}) x meta RSV {} = {} byte strings, {} one-hop byte strings",
+                acc.get("a_std_models"),
+                acc.get("a_onehop_models"),
+                if thorough { "every per-segment combination" } else { "uniform + 5 rotating mixed assignments" },
+                if thorough { "{0,0x3F}" } else { "{0}" },
+                acc.get("b_std_byte_strings"),
+                acc.get("b_onehop_byte_strings"),
+            ),
+            "counters": counters,
+            "wall_s_part_a": (t_a * 10.0).round() / 10.0,
+        }),
+        &[
+            "reference = vpc::refwire (spec-level codec incl. reversed()) and, for one-hop paths, scionproto's semantics (reverse = convert to the 2-hop standard path positioned at hop 2, then reverse; set second hop = {ConsIngress, ExpTime of hop 1, flags 0} + MAC with the advanced SegID)",
+            "expiry reference: min over segments of saturating(timestamp + floor((min ExpTime + 1) * 337.5 s))",
+            "interface queries exist on the view side only (ScionDpPathViewExt, ScionPath); they are compared with the reference and with each other across reversal",
+            "ScionPath reversal is compared with ScionPath::new(dst, src, reference-reversed bytes, independently reversed metadata, None)",
+            "built with overflow checks and debug assertions on: an arithmetic overflow shows as overflow-panic@ (it wraps silently in a plain release build), a debug_assert as debug-assert@ (not a production panic)",
+            "no reversal / query API exists at packet level in sciparse, so 'packet' in the property text is covered through the path it carries only",
+        ],
+    )
 }
